@@ -18,8 +18,15 @@ func InitGenesis(ctx sdk.Context, k keeper.Keeper, genState types.GenesisState) 
 		k.SetPosition(ctx, &elem)
 	}
 
-	// Set genesis Position count
-	k.SetPositionCount(ctx, (uint64)(len(genState.PositionList)))
+	// Set genesis Position count: it is the last id handed out (SetPosition gives a new position count+1) and the position's own
+	// account is derived from the id alone, so it must not fall below the highest imported id - ids of closed positions leave gaps
+	positionCount := (uint64)(len(genState.PositionList))
+	for _, elem := range genState.PositionList {
+		if elem.Id > positionCount {
+			positionCount = elem.Id
+		}
+	}
+	k.SetPositionCount(ctx, positionCount)
 	// Set genesis open Position count
 	k.SetOpenPositionCount(ctx, (uint64)(len(genState.PositionList)))
 
